@@ -113,6 +113,7 @@ func checkC02(c *Ctx) {
 	ruleResyncNotFound(c)
 	ruleTextResume(c)
 	ruleParaRestStart(c)
+	ruleCloseAtLineStart(c)
 }
 
 // ROOT-CUT: the Source of a root block ends exactly where the span of the block it carries ends.
@@ -453,6 +454,8 @@ func checkC16(c *Ctx) {
 	ruleNulView(c)
 	// a definition's label is normalised before the NUL padding is filled in, the same label in the block's Source after
 	ruleNormReader(c)
+	ruleRawViewPhase(c)
+	ruleCloseAtLineStart(c)
 }
 
 // INLINE-STATELESS: the inline parser keeps nothing between Rewrite calls.
